@@ -76,6 +76,10 @@ def build_files(fd):
     open(os.path.join(fd, "k.pdb"), "w").write(gen.pdb_text([gen.peptide(["ALA", "SER", "LYS"], chain=""), gen.transform(gen.peptide(["GLY", "ASP"], chain="", start=11), t=(0, 0, 30))]))
     two = gen.peptide(["LYS", "ALA", "SER"], chain="A", start=1) + gen.transform(gen.peptide(["GLY", "ASP"], chain="A", start=4), t=(0, 0, 30))
     open(os.path.join(fd, "h.pdb"), "w").write(gen.pdb_text([two]))
+    # a run that fails in the middle of the pipeline (not in parsing, not in the final charge check): a water given without its
+    # oxygen makes the set-up of the hydrogen-bond optimisation raise - with --noopt after the definitions were narrowed to water
+    w0 = [dict(a, name="H1") for a in gen.water((6, 14, 4), resseq=101)]
+    open(os.path.join(fd, "f3.pdb"), "w").write(gen.pdb_text([pep + w0 + gen.water((-7, 12, 3), resseq=102)]))
     # ligand complexes
     for nm, mol in (("l1", "ethanol.mol2"), ("l2", "acetate.mol2")):
         shutil.copy(os.path.join(DATA, mol), os.path.join(fd, nm + ".mol2"))
@@ -101,6 +105,8 @@ def build_files(fd):
         "PA": {"input": "a.pdb", "args": ["--ff=AMBER", "--titration-state-method=propka", "--with-ph=2"]},
         "K": {"input": "k.pdb", "args": ["--ff=AMBER", "--keep-chain", "--noopt"]},
         "H": {"input": "h.pdb", "args": ["--ff=PARSE", "--keep-chain"]},
+        "F3": {"input": "f3.pdb", "args": ["--ff=AMBER", "--noopt"]},
+        "F4": {"input": "f3.pdb", "args": ["--ff=AMBER"]},
     }
 
 
@@ -123,7 +129,7 @@ def _work(job):
 
 def run(ctx):
     rng = random.Random(ctx.seed)
-    ctx.rule = ("histories <= 3 runs over nineteen configurations (two built-in force-field runs, a --usernames variant of the "
+    ctx.rule = ("histories <= 3 runs over twenty-one configurations (two built-in force-field runs, a --usernames variant of the "
                 "same --ff, two user force fields, an input needing multi-atom repair, a run failing in parsing, a run "
                 "failing in the charge check, a PROPKA run, an input among unparseable records, a two-model file, two mmCIF inputs with different optional columns, two ligand complexes, a low-pH PROPKA run under AMBER, two inputs for which chain identifiers are handed out), each in a fresh interpreter x hash seeds; quick: all of length "
                 "<= 2 plus a seeded sample of length 3.  Distinct = distinct (history, seed); non-trivial = length >= 2")
@@ -131,7 +137,7 @@ def run(ctx):
                         "the verdict is on the bytes of the PQR file (or the exception class) only"]
     ctx.trusted += ["vlib/histchild.py", "TLC 1.8"]
     cfg = os.path.join(ctx.work, "h.cfg")
-    names = ["A", "B", "C", "U1", "U2", "D", "F1", "F2", "P", "E", "M", "X1", "X2", "L1", "L2", "PA", "K", "H", "L3"]
+    names = ["A", "B", "C", "U1", "U2", "D", "F1", "F2", "P", "E", "M", "X1", "X2", "L1", "L2", "PA", "K", "H", "L3", "F3", "F4"]
 
     def cfg_text(leak, emit, invs, maxruns=3):
         s = ("SPECIFICATION Spec\nCONSTANTS\n  Configs = {" + ", ".join(json.dumps(n) for n in names) + "}\n"
@@ -153,7 +159,7 @@ def run(ctx):
     core.need_ok(r, "History emit")
     ctx.add_tlc(r, "history emission")
     hists = [json.loads(v[1:]) for v in r.printed if isinstance(v, str) and v.startswith("@")]
-    if len(hists) != 19 + 19 ** 2 + 19 ** 3:
+    if len(hists) != len(names) + len(names) ** 2 + len(names) ** 3:
         raise core.MachineryError(f"emitted {len(hists)} histories")
     files = os.path.join(ctx.work, "files")
     configs = build_files(files)
